@@ -13,7 +13,7 @@ import copy
 import math
 import re
 
-from .. import envmode
+from .. import envmode, entropy
 from ..kernel import Violation, Budget, Discard, SimCrash, DrawCap, feq, cjson
 from ..gen import gen_seq, same_classes_other_letters
 from ..clock import SimClock, MODES
@@ -375,6 +375,11 @@ class WLSim(object):
         return i
 
     def viol(self, kind, key, msg):
+        if not self.use_hook and entropy.used():
+            # without the hook every decision is attributed to a tape draw; a run that also draws random
+            # numbers elsewhere (numpy generators, the global `random`, a helper module's own generator)
+            # cannot be attributed
+            raise Discard("the run draws random numbers that do not pass the seam and the hook is not in use: decisions cannot be attributed to tape draws")
         raise Violation(kind, key, "run %d step %d: %s" % (self.run_no, self.model.steps, msg))
 
     # --- callbacks from the seams
